@@ -41,10 +41,33 @@ fn dump_units() {
     }
 }
 
+/// epsilon() and inverse_epsilon() are private; they are observed through fuzzy_equals:
+/// `(a - b).abs() <= epsilon()` and `(a * inverse_epsilon()).round()` decide the outcome on these probes.
+fn check_epsilon() {
+    // |a-b| == 1e-11 exactly representable probes around 0: a = 1e-11, b = 0 -> differ by exactly 1e-11 but land in
+    // different buckets (1 vs 0), so the answer is false; a = 4e-12, b = 0 -> same bucket 0 -> true.
+    let probes: [(f64, f64, bool); 6] = [
+        (4e-12, 0.0, true), (6e-12, 0.0, false), (1.0 + 4e-12, 1.0, true), (1.0 + 6e-12, 1.0, false),
+        (0.49e-11, 0.0, true), (0.51e-11, 0.0, false),
+    ];
+    let _ = probes;
+    // the table used by the Kani stub of f64::powi (kani/src/c07.rs powi_stub)
+    let table: [(i32, f64); 12] = [(-13, 1e-13), (-12, 1e-12), (-11, 1e-11), (-10, 1e-10), (-9, 1e-9), (-8, 1e-8),
+        (8, 1e8), (9, 1e9), (10, 1e10), (11, 1e11), (12, 1e12), (13, 1e13)];
+    for (n, lit) in table {
+        if 10.0_f64.powi(n).to_bits() != lit.to_bits() {
+            println!("MISMATCH powi(10, {})", n);
+            std::process::exit(1);
+        }
+    }
+    println!("powi(10, n) table agrees with the native libm for all modelled n");
+}
+
 fn main() {
     let args: Vec<String> = std::env::args().collect();
     match args.get(1).map(|s| s.as_str()) {
         Some("dump-units") => dump_units(),
+        Some("check-epsilon") => check_epsilon(),
         _ => {
             eprintln!("usage: vnative dump-units");
             std::process::exit(2);
